@@ -597,6 +597,90 @@ def probes_for(cfg):
 
 
 # ------------------------------------------------------------------ literal harvesting
+def _strip(n):
+    while n.get("kind") in ("ImplicitCastExpr", "ParenExpr", "ConstantExpr", "CStyleCastExpr") and kids(n):
+        n = kids(n)[0]
+    return n
+
+
+def _var(n):
+    n = _strip(n)
+    if n.get("kind") == "DeclRefExpr":
+        return n["referencedDecl"]["name"]
+    return None
+
+
+def _var_plus(n, var):
+    """n is `var` or `var + k` (k a literal): return k, else None"""
+    n = _strip(n)
+    if _var(n) == var:
+        return 0
+    if n.get("kind") == "BinaryOperator" and n.get("opcode") == "+":
+        a, b = kids(n)
+        if _var(a) == var and _strip(b).get("kind") == "IntegerLiteral":
+            return int(_strip(b)["value"])
+    return None
+
+
+def sorted_scan_loop(fd):
+    """uniqueness.c edn_has_duplicates_sorted: the one loop over the sorted copy,
+         for (i = FIRST; i < count - SUB; i++) if (edn_value_equal(temp[i + L], temp[i + R])) { has_dups = true; break; }
+    -> (FIRST, SUB, L, R); any other shape is a translation failure (the model's scan is written for this shape)"""
+    loops = [x for x in walk(body_of(fd)) if x.get("kind") in ("ForStmt", "WhileStmt", "DoStmt")]
+    if len(loops) != 1 or loops[0].get("kind") != "ForStmt":
+        raise TranslateError("edn_has_duplicates_sorted: expected exactly one for loop")
+    parts = kids(loops[0])
+    if len(parts) != 5:
+        raise TranslateError("edn_has_duplicates_sorted: unexpected for-statement layout")
+    init, _cv, cond, inc, body = parts
+    vds = [x for x in walk(init) if x.get("kind") == "VarDecl"]
+    if init.get("kind") != "DeclStmt" or len(vds) != 1:
+        raise TranslateError("edn_has_duplicates_sorted: loop must declare one index variable")
+    iv = vds[0]["name"]
+    ini = [x for x in kids(vds[0])]
+    if len(ini) != 1 or _strip(ini[0]).get("kind") != "IntegerLiteral":
+        raise TranslateError("edn_has_duplicates_sorted: index must start at a literal")
+    first = int(_strip(ini[0])["value"])
+    cond = _strip(cond)
+    if cond.get("kind") != "BinaryOperator" or cond.get("opcode") != "<" or _var(kids(cond)[0]) != iv:
+        raise TranslateError("edn_has_duplicates_sorted: loop condition must be `i < bound`")
+    bound = _strip(kids(cond)[1])
+    if _var(bound) == "count":
+        sub = 0
+    elif bound.get("kind") == "BinaryOperator" and bound.get("opcode") == "-" and _var(kids(bound)[0]) == "count" \
+            and _strip(kids(bound)[1]).get("kind") == "IntegerLiteral":
+        sub = int(_strip(kids(bound)[1])["value"])
+    else:
+        raise TranslateError("edn_has_duplicates_sorted: loop bound must be `count` or `count - k`")
+    inc = _strip(inc)
+    if inc.get("kind") != "UnaryOperator" or inc.get("opcode") != "++" or _var(kids(inc)[0]) != iv:
+        raise TranslateError("edn_has_duplicates_sorted: loop step must be `i++`")
+    stmts = [x for x in kids(body)] if body.get("kind") == "CompoundStmt" else [body]
+    if len(stmts) != 1 or stmts[0].get("kind") != "IfStmt":
+        raise TranslateError("edn_has_duplicates_sorted: loop body must be a single if")
+    ic = _strip(kids(stmts[0])[0])
+    if ic.get("kind") != "CallExpr" or Tr().callee(ic) != "edn_value_equal" or len(kids(ic)) != 3:
+        raise TranslateError("edn_has_duplicates_sorted: loop test must be edn_value_equal(a, b)")
+    offs = []
+    for arg in kids(ic)[1:]:
+        a = _strip(arg)
+        if a.get("kind") != "ArraySubscriptExpr" or _var(kids(a)[0]) != "temp":
+            raise TranslateError("edn_has_duplicates_sorted: operands must be temp[...]")
+        k = _var_plus(kids(a)[1], iv)
+        if k is None:
+            raise TranslateError("edn_has_duplicates_sorted: subscripts must be i or i + k")
+        offs.append(k)
+    then = kids(stmts[0])[1]
+    if not any(x.get("kind") == "BreakStmt" for x in walk(then)) or \
+            not any(x.get("kind") == "BinaryOperator" and x.get("opcode") == "=" and _var(kids(x)[0]) == "has_dups" for x in walk(then)):
+        raise TranslateError("edn_has_duplicates_sorted: the then-branch must set has_dups and break")
+    # nothing else may touch the verdict
+    assigns = [x for x in walk(body_of(fd)) if x.get("kind") == "BinaryOperator" and x.get("opcode") == "=" and _var(kids(x)[0]) == "has_dups"]
+    if len(assigns) != 1:
+        raise TranslateError("edn_has_duplicates_sorted: has_dups must be assigned exactly once")
+    return first, sub, offs[0], offs[1]
+
+
 def int_literals(fd):
     return [int(x["value"]) for x in walk(body_of(fd)) if x.get("kind") == "IntegerLiteral"]
 
@@ -808,6 +892,16 @@ def gen_common(P, A):
         raise TranslateError("edn_has_duplicates_hash: expected the load-factor and initial-size literals")
     o.append("Definition hash_table_literals : list Z := %s.\n" % zlist(hl))
     o.append("Definition HASH_LOAD_NUM : Z := %d.\nDefinition HASH_LOAD_DEN : Z := %d.\nDefinition HASH_INIT_SIZE : Z := %d.\n" % (hl[0], hl[1], hl[2]))
+    # the scan over the sorted copy (uniqueness.c edn_has_duplicates_sorted)
+    try:
+        sf, ss, sl, sr = sorted_scan_loop(A[("uniqueness.c", "edn_has_duplicates_sorted")])
+    except TranslateError as ex:
+        # the loop no longer has the shape the model's scan is written for: emit parameters no proof accepts, so that exactly
+        # the obligations about the sort-based strategy break (SortDup.window_is_adjacent) instead of the whole translation
+        o.append("(* NOT TRANSLATED: %s *)\n" % str(ex).replace("*)", "* )"))
+        sf, ss, sl, sr = -1, -1, -1, -1
+    o.append("Definition SORTED_SCAN_FIRST : Z := %d.\nDefinition SORTED_SCAN_BOUND_SUB : Z := %d.\n"
+             "Definition SORTED_SCAN_LEFT : Z := %d.\nDefinition SORTED_SCAN_RIGHT : Z := %d.\n" % (sf, ss, sl, sr))
     # fast-path constants of parse_double_fast / parse_double_from_buffer
     o.append("Definition fastpath_literals : list Z := %s.\n" % zlist(
         sorted(set(int_literals(A[("number.c", "parse_double_fast")])))))
@@ -853,7 +947,7 @@ WANTED = [("edn.c", "edn_read_value"), ("simd.c", "edn_simd_skip_whitespace"),
           ("number.c", "digit_value"), ("equality.c", "edn_value_hash_internal"),
           ("equality.c", "edn_value_hash"), ("reader.c", "hash_tag"),
           ("number.c", "parse_double_fast"), ("character.c", "is_valid_single_char"),
-          ("uniqueness.c", "edn_has_duplicates_hash")]
+          ("uniqueness.c", "edn_has_duplicates_hash"), ("uniqueness.c", "edn_has_duplicates_sorted")]
 WANTED_EXP = [("string.c", "edn_parse_text_block_line"), ("string.c", "simd_scan_line_content")]
 OPTIONAL = {("simd.c", "edn_simd_find_newline_sse")}
 
